@@ -1,0 +1,62 @@
+//go:build verif
+
+// Contracts for C02 (the caches never hide a mutation the server itself completed): every mutating operation
+// removes, before it returns success, every cache entry whose key it affected. Checked by /verif/govc
+// (comment-only file). Keys: an attribute-cache entry (positive or negative) is keyed by the object's path, a
+// directory-cache entry by the directory's path.
+//   REMOVE / RMDIR   the object's path and the parent's path leave the attribute cache, the parent's listing (and
+//                    for RMDIR the removed directory's own listing) leaves the directory cache
+//   RENAME           both object paths and both parents' paths leave the attribute cache, both parents' listings
+//                    the directory cache; when the object moved is a directory both caches are emptied (everything
+//                    cached below the old name is stale)
+//   CREATE / SYMLINK / MKDIR   the re-lookup of the new object that builds the reply finds no entry for its
+//                    path (so it reads the backend, whatever a negative entry said before), and the parent's
+//                    attributes and listing are gone
+//   WRITE / SETATTR  the object's path leaves the attribute cache (size and times changed)
+// Lookups store a negative entry only after the backend said "does not exist" (call-site clause), and a failed
+// backend operation is answered with the status of its error (mapError, C14).
+package absnfs
+
+//@ specdef acHas(s *AbsfsNFS, p string) bool = has(s.attrCache.cache, p)
+//@ specdef dcHas(s *AbsfsNFS, p string) bool = s.dirCache != nil && has(s.dirCache.entries, p)
+
+//@ also AbsfsNFS.RemoveWithContext
+//@ ensures [removed-paths-uncached] {C02} isnil(result) && dir != nil ==> !acHas(s, sanitized(dir.path, name)) && !acHas(s, dir.path) && !dcHas(s, dir.path)
+//@ also AbsfsNFS.Remove
+//@ ensures [removed-paths-uncached] {C02} isnil(result) && dir != nil ==> !acHas(s, sanitized(dir.path, name)) && !acHas(s, dir.path) && !dcHas(s, dir.path)
+
+//@ also AbsfsNFS.RenameWithContext
+//@ ensures [renamed-paths-uncached] {C02} isnil(result) && oldDir != nil && newDir != nil ==> !acHas(s, sanitized(oldDir.path, oldName)) && !acHas(s, sanitized(newDir.path, newName)) && !acHas(s, oldDir.path) && !acHas(s, newDir.path) && !dcHas(s, oldDir.path) && !dcHas(s, newDir.path)
+// a directory that moves takes its subtree along: the caches are emptied before the targeted invalidations
+//@ callassert AttrCache.Invalidate#1 : [directory-move-empties-the-caches] {C02} movesDir ==> len(s.attrCache.cache) == 0 && (s.dirCache != nil ==> len(s.dirCache.entries) == 0)
+//@ callassert absfs.FS.Rename : [kind-known-before-the-move] {C02} true
+//@ also AbsfsNFS.Rename
+//@ ensures [renamed-paths-uncached] {C02} isnil(result) && oldDir != nil && newDir != nil ==> !acHas(s, sanitized(oldDir.path, oldName)) && !acHas(s, sanitized(newDir.path, newName)) && !acHas(s, oldDir.path) && !acHas(s, newDir.path) && !dcHas(s, oldDir.path) && !dcHas(s, newDir.path)
+
+//@ also AbsfsNFS.CreateWithContext
+//@ callassert AbsfsNFS.Lookup : [fresh-lookup-of-the-new-object] {C02} arg1 == path && !acHas(s, path) && !acHas(s, dir.path) && !dcHas(s, dir.path)
+//@ also AbsfsNFS.Symlink
+//@ callassert AbsfsNFS.Lookup : [fresh-lookup-of-the-new-object] {C02} arg1 == path && !acHas(s, path) && !acHas(s, dir.path) && !dcHas(s, dir.path)
+//@ also NFSProcedureHandler.handleMkdir
+//@ callassert AbsfsNFS.Lookup : [fresh-lookup-of-the-new-object] {C02} arg1 == dirPath && !acHas(h.server.handler, dirPath) && !acHas(h.server.handler, node.path) && !dcHas(h.server.handler, node.path)
+
+//@ also AbsfsNFS.WriteWithContext
+//@ ensures [written-path-uncached] {C02} isnil(result1) && node != nil ==> !acHas(s, node.path)
+//@ also AbsfsNFS.SetAttr
+//@ ensures [changed-path-uncached] {C02} isnil(result) && node != nil ==> !acHas(s, node.path)
+
+// emptying a cache gives it a new, empty LRU list of its own (needed to keep the two caches' lists apart)
+//@ also AttrCache.Clear
+//@ ensures [fresh-list] {C02, C21} fresh(c.accessList) && allocated(c.accessList) && c.maxSize == old(c.maxSize)
+//@ also DirCache.Clear
+//@ ensures [fresh-list] {C02, C21} fresh(c.accessList) && allocated(c.accessList) && c.maxEntries == old(c.maxEntries)
+
+// RMDIR and SETATTR(size) modify the backend from the handler itself and drop the affected entries there
+//@ also NFSProcedureHandler.handleRmdir
+//@ callassert AbsfsNFS.GetAttr#3 : [removed-paths-uncached] {C02} !acHas(h.server.handler, targetPath) && !acHas(h.server.handler, node.path) && !dcHas(h.server.handler, node.path) && !dcHas(h.server.handler, targetPath)
+//@ also NFSProcedureHandler.handleSetattr
+//@ callassert absfs.FS.Stat : [truncated-path-uncached] {C02} !acHas(h.server.handler, node.path)
+
+// a name is remembered as missing only after the backend failed to find it
+//@ also AbsfsNFS.LookupWithContext
+//@ callassert AttrCache.PutNegative : [negative-entry-only-after-backend-miss] {C02} !isnil(err) && arg1 == path
